@@ -33,16 +33,19 @@ pub struct Screen {
     pub rows: Vec<Vec<char>>,
     pub cr: usize,
     pub cc: usize,
+    /// lines that left the screen at the top (a line feed on the last row scrolls)
+    pub scrolled: usize,
 }
 
 impl Screen {
     pub fn blank(w: usize, h: usize) -> Screen {
-        Screen { w, h, rows: vec![vec![' '; w]; h], cr: 0, cc: 0 }
+        Screen { w, h, rows: vec![vec![' '; w]; h], cr: 0, cc: 0, scrolled: 0 }
     }
     fn line_feed(&mut self) {
         if self.cr + 1 < self.h {
             self.cr += 1;
         } else if !self.rows.is_empty() {
+            self.scrolled += 1;
             self.rows.remove(0);
             self.rows.push(vec![' '; self.w]);
         }
@@ -616,14 +619,15 @@ fn level2_case(ctx: &mut Ctx, idx: usize, r: &mut Rng, idle: bool, q: &Q, fixed:
 /// second-level aggregates grouped by a value that changes while the input streams in: a group of
 /// the second level disappears again when no first-level row has that value any more
 const AGG_OF_AGG: &[&str] = &[
-    "* | json | count by a | count by _count",
+    // (`count by _count` is rejected since 7200e5c: key and aggregate would share the name `_count`)
+    "* | json | count by a | count as groups by _count",
     "* | json | count as hits by u | count as users by hits",
     "* | json | sum(n) as s by k | count as ks, sum(s) as total by s",
     "* | json | count as hits by u | count as users by hits | where hits > 1",
     "* | json | count as hits by u | count as users by hits | limit 2",
     "* | json | count as hits by u | count as users by hits | sort by hits",
     "* | json | count as hits by u | count as users by hits | total(users) as t",
-    "* | json | count by a | count by _count | count",
+    "* | json | count by a | count as groups by _count | count",
     "* | json | count as hits by u | max(hits) as top, count as users by hits | sort by top desc",
     "* | json | count as hits by u, a | count as pairs by hits | sort by pairs, hits",
 ];
@@ -945,6 +949,103 @@ fn idle_catch_up(ctx: &mut Ctx, idx: usize, r: &mut Rng) {
     ctx.case(family, &key, "pass", serde_json::json!({"query": query, "size": [w, h], "bursts": burst_lines, "idle_ms": idle_ms, "caught_up_after_ms": late_ms, "frames": frames.len()}));
 }
 
+/* ---------- level 2e: cells with line breaks on a short terminal ---------- */
+
+/// `count by msg` where msg is an exception message with stack frames (2–3 lines), more groups than
+/// the terminal has rows: a table row takes several screen lines, so the frame must be clipped by
+/// LINES.  Oracles: no frame taller than h−1 lines, nothing ever scrolled off the top, the final
+/// screen is exactly the final frame (no residue), and that frame is the first h−1 lines of what a
+/// non-terminal run prints (up to padding).
+fn multiline_cells(ctx: &mut Ctx, idx: usize, r: &mut Rng) {
+    let query = *r.pick(&["* | json | count by msg", "* | json | count by msg | sort by msg", "* | json | count by msg, k"]);
+    let w = 100 + r.below(100) as u16;
+    let h = 6 + r.below(7) as u16;
+    let ngroups = 4 + r.below(10);
+    let msgs: Vec<String> = (0..ngroups)
+        .map(|i| {
+            let nl = if r.chance(25) { "\\r\\n" } else { "\\n" };
+            let mut m = format!("boom{:02}{}  at frame{:02}()", i, nl, i);
+            if r.chance(50) {
+                m.push_str(&format!("{}  at main()", nl));
+            }
+            if r.chance(15) {
+                m.push_str(nl);
+            }
+            m
+        })
+        .collect();
+    let rows = ngroups + r.below(30);
+    let mut input = String::new();
+    for i in 0..rows {
+        let m = if i < ngroups { &msgs[i] } else { &msgs[r.below(ngroups)] };
+        input.push_str(&format!("{{\"msg\":\"{}\",\"k\":\"k{}\"}}\n", m, r.below(2)));
+    }
+    let input = input.into_bytes();
+    let density = *r.pick(&[30usize, 100, 100]);
+    let seed = r.next();
+    let line_starts: Vec<usize> = std::iter::once(0).chain(input.iter().enumerate().filter(|(_, b)| **b == b'\n').map(|(i, _)| i + 1)).collect();
+    let mut pauses = vec![];
+    for _ in 0..r.below(3) {
+        pauses.push((*r.pick(&line_starts), 60 + r.below(40) as u64));
+    }
+    pauses.sort();
+    pauses.dedup_by_key(|p| p.0);
+    let family = "multiline-cells";
+    let key = format!("{}:{}", family, idx);
+    let info = serde_json::json!({"level": "pipeline", "query": query, "size": [w, h], "groups": ngroups, "rows": rows, "refresh_density": density, "refresh_seed": seed, "pauses": pauses, "input_hex": enc::hexb(&input)});
+    let tty = run_pipeline(query, &input, Some((w, h)), true, seed, density, pauses.clone());
+    let plain = run_pipeline(query, &input, None, false, seed, density, vec![]);
+    if tty.hung || !tty.compiled || plain.hung || plain.panicked.is_some() {
+        ctx.case(family, &key, "viol", serde_json::json!({"class": "C16/panic", "what": "run failed", "case": info}));
+        return;
+    }
+    if let Some(p) = &tty.panicked {
+        ctx.case(family, &key, "viol", serde_json::json!({"class": "C16/panic", "what": format!("terminal run panicked: {}", c19::clip(p, 200)), "case": info}));
+        return;
+    }
+    let text = String::from_utf8_lossy(&tty.bytes).into_owned();
+    let frames = split_frames(&text);
+    // no frame taller than the screen
+    if let Some((fi, f)) = frames.iter().enumerate().find(|(_, f)| f.matches('\n').count() > h as usize - 1) {
+        ctx.case(family, &key, "viol", serde_json::json!({"class": "C16/frame-taller-than-terminal",
+            "what": format!("frame {} of {} has {} lines on a terminal of height {}: a row whose cell contains a line break takes several lines, the frame must be clipped by lines", fi, frames.len(), f.matches('\n').count(), h),
+            "frame": f, "case": info}));
+        return;
+    }
+    // nothing scrolled off the top
+    let mut scr = Screen::blank(w as usize, h as usize);
+    if scr.display(&text).is_some() && scr.scrolled > 0 {
+        ctx.case(family, &key, "viol", serde_json::json!({"class": "C16/frame-taller-than-terminal", "what": format!("{} lines were scrolled off the top of the screen while redrawing", scr.scrolled), "case": info}));
+        return;
+    }
+    // emulators agree, bytes = model renderer's, final screen = final frame (no residue)
+    let mut tap = VerdictTap::default();
+    judge_bytes_tap(ctx, &mut tap, w as usize, h as usize, &tty.bytes, &frames);
+    if let Some((verdict, mut payload)) = tap.0.take() {
+        if verdict != "pass" {
+            payload["case"] = info;
+            ctx.case(family, if verdict == "skip" { "" } else { &key }, &verdict, payload);
+            return;
+        }
+    }
+    // the final frame is the first h−1 LINES of the non-terminal output, up to padding
+    let plain_text = String::from_utf8_lossy(&plain.bytes).into_owned();
+    let last = frames.last().cloned().unwrap_or_default();
+    let tty_lines: Vec<&str> = last.strip_suffix('\n').unwrap_or(&last).split('\n').collect();
+    let plain_lines: Vec<&str> = plain_text.strip_suffix('\n').unwrap_or(&plain_text).split('\n').collect();
+    let want_n = plain_lines.len().min(h as usize - 1);
+    let bad = if tty_lines.len() != want_n {
+        Some(format!("final frame has {} lines, the first {} lines of the non-terminal output were expected", tty_lines.len(), want_n))
+    } else {
+        (0..want_n).find(|i| *i != 1 && !same_cells(tty_lines[*i], plain_lines[*i])).map(|i| format!("line {} of the final frame {:?} is not line {} of the non-terminal output {:?}", i, tty_lines[i], i, plain_lines[i]))
+    };
+    if let Some(what) = bad {
+        ctx.case(family, &key, "viol", serde_json::json!({"class": "C16/final-frame-differs", "what": what, "final_frame": last, "non_tty": c19::clip(&plain_text, 1500), "case": info}));
+        return;
+    }
+    ctx.case(family, &key, "pass", serde_json::json!({"query": query, "size": [w, h], "groups": ngroups, "rows": rows, "frames": frames.len(), "lines_of_full_table": plain_lines.len()}));
+}
+
 /* ---------- level 2c: row-oriented output modes on a terminal ---------- */
 
 fn row_modes(ctx: &mut Ctx, idx: usize, r: &mut Rng, fixed_w: Option<u16>) {
@@ -1154,6 +1255,11 @@ pub fn check(ctx: &mut Ctx) {
     for i in 0..n5 {
         let mut r = ctx.rng.fork();
         row_modes(ctx, ctx.shard * 1_000_000 + 700_000 + i, &mut r, None);
+    }
+    let n7 = ctx.budget(160, 3000);
+    for i in 0..n7 {
+        let mut r = ctx.rng.fork();
+        multiline_cells(ctx, ctx.shard * 1_000_000 + 900_000 + i, &mut r);
     }
     let n6 = ctx.budget(96, 960);
     for i in 0..n6 {
